@@ -1,4 +1,5 @@
 """C15 — the GP surrogate is always conditioned on real, nearby observations."""
+import json
 import math
 import os
 import sys
@@ -9,12 +10,14 @@ from harness import comp_gpset as C
 from harness import run_gp as R
 from vlib import core
 
-PROPS = "Props/C15.v"
+PROPS = ["Props/C15.v", "Props/C15src.v"]
+SRC_THEOREMS = ["C15_selection_is_source", "C15_selection_measures_the_prefix", "C15_initial_set_is_source", "C15_append_is_source",
+                "C15_fit_centres_are_source"]
 THEOREMS = ["C15_training_set_is_nearest", "C15_size_bounds", "C15_pairs_are_logged", "C15_noise_is_variance",
             "C15_append_is_new_observation", "C15_initial_set_is_the_log", "C15_called_on_prefix",
-            "C15_lcb_is_documented", "C15_pairs_logged_after_repeat_refuted"]
+            "C15_lcb_is_documented", "C15_pairs_logged_after_repeat_refuted"] + SRC_THEOREMS
 CLOSED = [t for t in THEOREMS if t != "C15_lcb_is_documented"]      # must not depend on any axiom
-TRANSLATORS = ["lcb"]
+TRANSLATORS = ["lcb", "gpset"]
 LEVEL = "proof"
 # only C15_lcb_is_documented (a statement over R) may depend on these; tie() checks the others are closed
 ALLOWED_AXIOMS = ["ClassicalDedekindReals.sig_not_dec", "ClassicalDedekindReals.sig_forall_dec",
@@ -30,7 +33,14 @@ RULE = ("component: synthetic FunctionLoggers (0-90 rows, D 1-3, mesh points => 
         "non-trivial = selection keeps fewer rows than logged, or has tied distances, or carries a noise column")
 TRUSTED = [
     "Coq 8.16.1 kernel + vm_compute (case evaluation); no native_compute",
-    "hand-written model Model/GPSet.v of get_grid_search_neighbors / _get_fevals_data / add_and_update_gp, tied by differential comparison",
+    "hand-written model Model/GPSet.v of get_grid_search_neighbors / _get_fevals_data / add_and_update_gp, tied by differential comparison "
+    "AND proved equal (Props/C15src.v) to the programs translate/gpset.py regenerates from the source on every run",
+    "translate/gpset.py (fail-closed ast whitelist + symbolic execution; its docstring lists every accepted shape) and the interpreters of "
+    "Model/GPSetSrc.v: a slice a[lo:hi] with non-negative bounds is skipn/firstn, NumPy fancy indexing is nth_error per kept index, "
+    "np.max([..]) / np.minimum are Z.max / Z.min on Python ints, x ** k is the exact rational power; the generated program is evaluated by "
+    "vm_compute on every case of the differential tie (correspondence:gpset_source), so the translator is checked against the real code",
+    "call-site theorems (C15_fit_centres_are_source, the site / census parts of C15_append_is_source) are pins of canonical text and small "
+    "enums resolved by the translator (self.u / the argument of the latest self.function_logger(...) / history row i), not semantics",
     "distances are oracle rationals recorded from the real udist (length-scaled squared Euclidean metric via SciPy cdist: trusted, not modelled); "
     "periodic variables (non-default) are not exercised",
     "np.argsort modelled as a stable sort; order inside a group of exactly tied distances is unspecified in numpy and compared as a multiset",
@@ -158,7 +168,7 @@ STALE_KEY = R.STALE_KEY
 
 # ----------------------------------------------------------------------------- tie
 
-def _violate_component(ctx, case, m):
+def _violate_component(ctx, case, m, note=""):
     key = m[0]
 
     def failing(c):
@@ -167,7 +177,7 @@ def _violate_component(ctx, case, m):
         return mm is not None and mm[0] == key
     small = C.shrink_case(case, failing)
     mm = C.monitor_case(small, C.run_real(small)) or m
-    ctx.violate(mm[0], "get_grid_search_neighbors: " + mm[1], dict(kind="gsn_case", case=small))
+    ctx.violate(mm[0], "get_grid_search_neighbors: " + mm[1] + note, dict(kind="gsn_case", case=small))
 
 
 def tie(ctx, broken):
@@ -216,7 +226,9 @@ def tie(ctx, broken):
     ctx.sample(dict(case=cases[5][0], real={k: v for k, v in cases[5][1].items() if k != "dist"}))
     usable = [(c, r) for c, r in cases if "exc" not in r]
     coq = [C.case_to_coq(c, r) for c, r in usable]
-    okc, bad, log = core.run_cases("C15gsn", C.REQUIRES, C.GSN_TY, C.GSN_OK, coq, shard=60 if ctx.quick else 250)
+    src = _SrcTie(ctx)
+    okc, bad, bad_s, log = C.run_cases_both("C15gsn", C.GSN_TY, C.GSN_OK, C.GSN_OK_SRC, coq, shard=60 if ctx.quick else 250, with_src=src.available)
+    src.add("get_grid_search_neighbors", okc, bad, bad_s, len(coq), lambda i: dict(kind="gsn_case", case=usable[i][0]))
     good = ctx.oblige("correspondence:get_grid_search_neighbors", "correspondence", okc and not bad and len(usable) == len(cases),
                       f"{len(bad)} of {len(coq)} calls differ, {len(cases) - len(usable)} raised; " + log[-400:])
     if first_bad:
@@ -231,15 +243,17 @@ def tie(ctx, broken):
 
     # 3. component: add_and_update_gp, _get_fevals_data
     na = 250 if ctx.quick else 2000
-    adds, first_add = [], None
+    adds, first_add, add_cases = [], None, []
     for _ in range(na):
         c = C.gen_add_case(ctx.rng)
+        add_cases.append(c)
         r = C.run_add_real(c)
         adds.append(C.coq_add_case(c, r))
         m = C.monitor_add(c, r)
         if m and first_add is None:
             first_add = (c, m)
-    okc, bad, log = core.run_cases("C15add", C.REQUIRES, C.ADD_TY, C.ADD_OK, adds, shard=125 if ctx.quick else 400)
+    okc, bad, bad_s, log = C.run_cases_both("C15add", C.ADD_TY, C.ADD_OK, C.ADD_OK_SRC, adds, shard=125 if ctx.quick else 400, with_src=src.available)
+    src.add("add_and_update_gp", okc, bad, bad_s, na, lambda i: dict(kind="add_case", case=add_cases[i]))
     ctx.count(na, na)
     if not ctx.oblige("correspondence:add_and_update_gp", "correspondence", okc and not bad, f"{len(bad)} of {na} differ; " + log[-300:]):
         broken.append(("correspondence:add_and_update_gp", f"model and add_and_update_gp differ on {len(bad)} cases"))
@@ -250,7 +264,8 @@ def tie(ctx, broken):
         c = C.gen_case(ctx.rng, i + 1)
         flags = [ctx.rng.random() < 0.8 for _ in c["X"]]
         fev.append(C.coq_fevals_case(c, flags, C.run_fevals_real(c, flags)))
-    okc, bad, log = core.run_cases("C15fev", C.REQUIRES, C.FEV_TY, C.FEV_OK, fev, shard=75 if ctx.quick else 250)
+    okc, bad, bad_s, log = C.run_cases_both("C15fev", C.FEV_TY, C.FEV_OK, C.FEV_OK_SRC, fev, shard=75 if ctx.quick else 250, with_src=src.available)
+    src.add("_get_fevals_data", okc, bad, bad_s, len(fev), lambda i: dict(kind="fevals", index=i))
     ctx.count(len(fev), len(fev))
     if not ctx.oblige("correspondence:_get_fevals_data", "correspondence", okc and not bad, f"{len(bad)} of {len(fev)} differ; " + log[-300:]):
         broken.append(("correspondence:_get_fevals_data", f"model and _get_fevals_data differ on {len(bad)} cases"))
@@ -306,14 +321,224 @@ def tie(ctx, broken):
     if tot["aborted_runs"]:
         ctx.notes.append("runs aborted by an exception outside the training-set code (not a C15 matter, reported): "
                          + "; ".join(a["exc"][:160] for a in tot["aborted_runs"] if not a["anchored"]))
+    _tie_sites(ctx, broken, outs)
     coq = [R.event_to_coq(e) for e in events]
-    okc, bad, log = core.run_cases("C15run", C.REQUIRES, C.GSN_TY, C.GSN_OK, coq, shard=max(4, len(coq) // 12 + 1))
+    okc, bad, bad_s, log = C.run_cases_both("C15run", C.GSN_TY, C.GSN_OK, C.GSN_OK_SRC, coq, shard=max(4, len(coq) // 12 + 1), with_src=src.available)
+    src.add("run-level selections", okc, bad, bad_s, len(coq), lambda i: dict(kind="run_selection", index=i))
+    src.finish(broken)
     if not ctx.oblige("correspondence:run-level selections", "correspondence", okc and not bad,
                       f"{len(bad)} of {len(coq)} recorded selections differ from the model; " + log[-300:]):
         broken.append(("correspondence:run-level selections", f"model differs from {len(bad)} selections recorded in real runs"))
 
 
+class _SrcTie:
+    """Translator validation: the GENERATED programs (gen/Src_gpset.v) evaluated by vm_compute on the same literals as the hand-written
+    model in every differential tie of this property -> one obligation correspondence:gpset_source."""
+
+    def __init__(self, ctx):
+        self.ctx = ctx
+        ob = [o for o in ctx.obligations if o[0] == "translate:gpset"]
+        self.available = bool(ob and ob[0][2])
+        self.n = 0
+        self.parts = []
+        self.faults = []          # (part, kind, example replay)
+        self.compiled = True
+
+    def add(self, part, compiled, bad_model, bad_src, n, replay_of):
+        if not self.available:
+            return
+        if bad_src is None or not compiled:
+            self.compiled = False
+            self.parts.append(f"{part}: generated program could not be evaluated")
+            return
+        self.n += n
+        only_src = sorted(set(bad_src) - set(bad_model))
+        only_model = sorted(set(bad_model) - set(bad_src))
+        both = sorted(set(bad_src) & set(bad_model))
+        self.parts.append(f"{part}: {n - len(bad_src)}/{n}")
+        if only_src:
+            self.faults.append((part, f"TRANSLATOR fault: the generated program disagrees with the code on {len(only_src)} case(s) where the "
+                                      f"hand-written model agrees", replay_of(only_src[0])))
+        if only_model:
+            self.faults.append((part, f"the source has changed: the hand-written model no longer describes it on {len(only_model)} case(s) "
+                                      f"where the generated program agrees with the code", replay_of(only_model[0])))
+        if both:
+            self.faults.append((part, f"generated program AND hand-written model disagree with the code on {len(both)} case(s)", replay_of(both[0])))
+
+    def finish(self, broken):
+        if not self.available:
+            self.ctx.oblige("correspondence:gpset_source", "correspondence", False,
+                            "the source is not translatable (see translate:gpset): the generated program could not be compared with the code")
+            return          # translate:gpset is already in `broken`
+        src_faults = [f for f in self.faults if not f[1].startswith("the source has changed")]
+        ok = self.compiled and not src_faults
+        detail = "; ".join(self.parts) + " cases: generated program == real code" + "".join(f" || {p}: {k}" for p, k, _ in self.faults)
+        if not self.ctx.oblige("correspondence:gpset_source", "correspondence", ok, detail[:900]):
+            broken.append(("correspondence:gpset_source", detail[:600]))
+        self.ctx.coverage["gpset_source_cases"] = self.n
+        if self.faults:
+            self.ctx.coverage["gpset_source_faults"] = [dict(part=p, what=k, replay=r) for p, k, r in self.faults][:6]
+
+
+def _tie_sites(ctx, broken, outs):
+    """Validation of the translator's CALL-SITE census against the real code: every local_gp_fitting call observed in the real runs
+    (calling method; whether its centre equals the incumbent / the point last handed to the logger / the history row of the very
+    surrogate passed) must be explained by one of the sites the translator resolved for that method in the CURRENT source."""
+    from translate import gpset as T
+    snap, err, _ = T.current()
+    if snap is None:
+        return          # translate:gpset is already broken
+    want = {}
+    for f in snap["fits"]:
+        want.setdefault(f[0], []).append(f[2])
+    seen, unexplained, total = {}, [], 0
+    for o in outs:
+        for caller, inc, ev, hist, n in o.get("site_obs", []):
+            total += n
+            holds = {"CenIncumbent": inc, "CenEvaluated": ev, "CenHistoryRow": hist}
+            sites = want.get(caller, [])
+            hit = [c for c in sites if isinstance(c, str) and holds.get(c)]
+            other = [c for c in sites if not isinstance(c, str)]
+            for c in hit:
+                seen[(caller, c)] = seen.get((caller, c), 0) + n
+            if not hit and not other:
+                unexplained.append(f"{n} call(s) from {caller} with centre == incumbent: {inc}, == last evaluated point: {ev}, == own history row: {hist}; "
+                                   f"translated sites of that method: {sites}")
+    ctx.coverage["fit_sites_observed"] = {f"{k[0]}:{k[1]}": v for k, v in sorted(seen.items())}
+    ok = not unexplained
+    if not ctx.oblige("correspondence:gpset_sites", "correspondence", ok,
+                      (f"{total} local fits of the real runs explained by the translated call sites {sorted(ctx.coverage['fit_sites_observed'].items())}"
+                       if ok else "TRANSLATOR fault (call-site census): " + " || ".join(unexplained[:3]))[:700]):
+        broken.append(("correspondence:gpset_sites", "the translator's call-site census does not explain the local fits observed in real runs: " + unexplained[0][:400]))
+
+
+def aim(ctx):
+    """What the search should be aimed at: the components of the translation that differ from the reference snapshot (ONLY to aim;
+    every verdict below is the declarative monitor's), or the function in which translation stopped."""
+    from translate import gpset as T
+    snap, err, focus = T.current()
+    foci, notes = set(), []
+    if snap is None:
+        notes.append(f"translation stopped: {err}")
+        f = focus or ""
+        if "get_grid" in f or f == "take":
+            foci |= {"gsn"}
+        elif "fevals" in f:
+            foci |= {"fevals"}
+        elif "add_and" in f:
+            foci |= {"add"}
+        elif f:
+            foci |= {"run"}
+        else:
+            foci |= {"gsn", "fevals", "add", "run"}
+    else:
+        for d in T.diff(snap):
+            notes.append(f"{d['what']}: now {json.dumps(d['now'])[:160]} (reference {json.dumps(d['was'])[:160]})")
+            w = d["what"]
+            if w == "gsn.udist_args" or w in ("flow", "fits", "appends", "settrain", "writers"):
+                foci |= {"run", "gsn"} if w in ("gsn.udist_args", "flow") else {"run"}
+            elif w.startswith("gsn."):
+                foci.add("gsn")
+            elif w.startswith("fevals."):
+                foci.add("fevals")
+            elif w == "add":
+                foci |= {"add", "run"}
+    return foci, notes
+
+
+def gen_aimed_gsn(rng, i):
+    """get_grid_search_neighbors calls placed ON the constructs of the size rule and the gathers: a logged point EXACTLY at the radius
+    (mesh points, len_scale 1 or 1/2, radius^2 in {1/4, 1, 4}: dist == radius^2 in binary64), each of n_train_min / n_train_max - buffer /
+    min(n_train_max, within) / X_max_idx + 1 decisive in turn, rows beyond X_max_idx NEARER than every row of the prefix, SDs that are
+    not 0 / 1 (S == S**2 would hide a dropped square), one and two reference points."""
+    c = C.gen_case(rng, i + 1)
+    D = c["D"]
+    n = rng.choice([3, 5, 8, 12, 20])
+    grid = 0.5
+    u0 = [grid * rng.randint(-1, 1) for _ in range(D)]
+    pts = []
+    for _ in range(n):
+        r = rng.random()
+        if r < 0.5:       # on a sphere of radius exactly 0.5 / 1 / 2 around u0 (along one axis)
+            k = rng.randrange(D)
+            x = list(u0)
+            x[k] = u0[k] + rng.choice([-1, 1]) * rng.choice([0.5, 1.0, 2.0])
+        elif r < 0.65 and pts:
+            x = list(rng.choice(pts))
+        else:
+            x = [grid * rng.randint(-4, 4) for _ in range(D)]
+        pts.append(x)
+    mode = rng.choice(["sd", "sd", "none", "nan"])
+    S = [rng.choice([0.1, 0.25, 0.5, 2.0, 3.0, rng.uniform(0.01, 4)]) for _ in range(n)] if mode == "sd" else [None] * n
+    Y = [rng.choice([rng.uniform(-5, 5), float(rng.randint(-3, 3))]) for _ in range(n)]
+    xmax = n - 1
+    if rng.random() < 0.4 and n >= 3:
+        k = rng.choice([1, 2])
+        xmax = n - 1 - k
+        for j in range(xmax + 1, n):        # the rows beyond X_max_idx sit on / next to the centre
+            pts[j] = list(u0) if rng.random() < 0.5 else [u0[0] + 0.25] + list(u0[1:])
+    u = [list(u0)] if rng.random() < 0.85 else [list(u0), [v + 0.5 for v in u0]]
+    within_like = rng.randint(0, n)
+    which = i % 5
+    if which == 0:      # the count decides: n_min small, n_max - buffer negative, n_max large
+        opts = dict(n_train_min=rng.choice([0, 1]), n_train_max=rng.choice([20, 70]), buffer_ntrain=100)
+    elif which == 1:    # n_max caps the count
+        opts = dict(n_train_min=0, n_train_max=max(1, within_like - rng.choice([0, 1, 2])), buffer_ntrain=100)
+    elif which == 2:    # n_max - buffer decides
+        opts = dict(n_train_min=rng.choice([0, 1]), n_train_max=rng.choice([4, 8]), buffer_ntrain=rng.choice([0, 1, 3]))
+    elif which == 3:    # n_min decides
+        opts = dict(n_train_min=rng.choice([2, 3, 5]), n_train_max=rng.choice([1, 2]), buffer_ntrain=rng.choice([0, 100]))
+    else:               # the number of logged rows decides
+        opts = dict(n_train_min=rng.choice([10, 50]), n_train_max=70, buffer_ntrain=rng.choice([0, 3]))
+    opts["gp_radius"] = rng.choice([0.5, 1, 2, 1, 0.25])
+    ls = rng.choice([1.0, 1.0, 0.5, [1.0] * D, [0.5] + [1.0] * (D - 1), [rng.choice([0.5, 2.0, 0.3]) for _ in range(D)]])
+    eff = rng.choice([1.0, 1.0, 2.0, 0.5, [1.0]])
+    c.update(X=pts, Y=Y, S=S, mode=mode, xmax=xmax, u=u, len_scale=ls, opts=opts, eff=eff)
+    return c
+
+
+def aimed_search(ctx, foci, notes):
+    tagn = (" [search aimed at: " + ", ".join(sorted(foci)) + "] [source change: " + " | ".join(notes)[:500] + "]") if foci else ""
+    if "gsn" in foci:
+        for i in range(3000):
+            c = gen_aimed_gsn(ctx.rng, i)
+            m = C.monitor_case(c, C.run_real(c))
+            if m:
+                _violate_component(ctx, c, m, tagn)
+                return True
+    if "add" in foci:
+        for _ in range(3000):
+            c = C.gen_add_case(ctx.rng)
+            m = C.monitor_add(c, C.run_add_real(c))
+            if m:
+                ctx.violate(m[0], "add_and_update_gp: " + m[1] + tagn, dict(kind="add_case", case=c))
+                return True
+    if "fevals" in foci:
+        for i in range(1500):
+            c = gen_aimed_gsn(ctx.rng, i)
+            flags = [ctx.rng.random() < 0.7 for _ in c["X"]]
+            m = C.monitor_fevals(c, flags)
+            if m:
+                ctx.violate(m[0], "_get_fevals_data: " + m[1] + tagn, dict(kind="fevals_case", case=c, flags=flags))
+                return True
+    if "run" in foci:
+        cfgs = R.gen_configs(ctx.rng, 16)
+        for o in R.run_many(cfgs, procs=12):
+            for key, msg, where in o["violations"]:
+                if key != STALE_KEY:
+                    ctx.violate(key, f"{o['cfg']['mode']} run D={o['cfg']['D']} seed {o['cfg']['seed']}, {where}: {msg}" + tagn, dict(kind="run", cfg=o["cfg"]))
+                    return True
+    return False
+
+
 def search(ctx, broken):
+    try:
+        foci, notes = aim(ctx)
+    except Exception as ex:       # the aim is a convenience; never let it mask the generic search
+        foci, notes = set(), [f"aim crashed: {ex!r}"]
+    ctx.coverage["search_aim"] = dict(foci=sorted(foci), notes=notes[:8])
+    if foci and aimed_search(ctx, foci, notes):
+        return True
     for i in range(4000):
         c = C.gen_case(ctx.rng, i)
         m = C.monitor_case(c, C.run_real(c))
@@ -346,6 +571,9 @@ def replay(ctx, rp):
         real = C.run_add_real(r["case"])
         m = C.monitor_add(r["case"], real)
         print("case:", r["case"], "\nreal:", real)
+    elif kind == "fevals_case":
+        m = C.monitor_fevals(r["case"], r["flags"])
+        print("case:", r["case"], "flags:", r["flags"])
     elif kind == "lcb_case":
         m = lcb_monitor(r["case"])
         print("case:", r["case"])
